@@ -140,7 +140,9 @@ func (x *TypeInfos) Get(name string) *TypeInfo {
 	} else {
 		fullName = name
 	}
-	return x.GetByFullName(protoreflect.FullName(fullName))
+	// NOTE: do not call GetByFullName here: a nested RLock deadlocks as soon as
+	// a concurrent Put (Lock) is waiting between the two read-lock acquisitions.
+	return x.infos[protoreflect.FullName(fullName)]
 }
 
 // GetByFullName retrieves type info by type's full name.
